@@ -415,6 +415,45 @@ func c11ClientTransportsAs(c *Ctx, rule string) {
 		}
 		return true
 	}
+	// from the moment the IN request claims the cached tunnel (transportIn is set, so a retry with the
+	// same connection id is refused) this request owns the OUT leg: every exit after the claim closes
+	// it (directly or through a defer) — an early return between the claim and the packet loop would
+	// leave the hijacked OUT connection open with nobody left to close it. And the registry key
+	// (Tunnel.Id) of the shared, cached tunnel is assigned only under the claim test: a second IN
+	// request that is turned away must not re-key a tunnel that is registered under the old Id.
+	idF := c.FieldVar("cmd/rdpgw/protocol", "Tunnel", "Id")
+	isInLoad := func(v ssa.Value) bool { return isFieldLoad(strip(v), inF) }
+	for _, lf := range legacyFns {
+		lf := lf
+		nClaim, nID := 0, 0
+		eachInstr(lf, func(in ssa.Instruction) {
+			st, ok := in.(*ssa.Store)
+			if !ok {
+				return
+			}
+			_, f, ok := fieldOfAddr(st.Addr)
+			if !ok {
+				return
+			}
+			switch f {
+			case inF:
+				if isNil(strip(st.Val)) {
+					return
+				}
+				nClaim++
+				ok, where := releasedOnAllExits(lf, st, isRel)
+				msg := ""
+				if where != nil {
+					msg = " (return at " + c.P.Pos(where.Pos()) + ")"
+				}
+				c.Check(ok, rule, fmt.Sprintf("%s claim#%d out-leg closed", shortFn(lf), nClaim), st.Pos(), "every exit after the IN leg claimed the tunnel closes the OUT leg", "after the IN request has claimed the tunnel an exit is reachable that does not close the OUT leg"+msg+": the hijacked RDG_OUT_DATA connection stays open and a retry is refused")
+			case idF:
+				nID++
+				ok, why := mustPass(lf, st, GEq(isInLoad, anyNil))
+				c.Check(ok, rule, fmt.Sprintf("%s id-store#%d", shortFn(lf), nID), st.Pos(), "the registry key of the cached tunnel is assigned only under the claim test (transportIn == nil)", "Tunnel.Id of the cached tunnel is assigned "+why+" of transportIn == nil: a second IN request re-keys a registered tunnel and RemoveTunnel then misses its registry entry")
+			}
+		})
+	}
 	nProc := 0
 	for _, fn := range c.allFirstPartyFuncs() {
 		if fn != lg && !c.onlyCalledFrom(fn, lg, 0) {
